@@ -30,6 +30,17 @@ func notClaimed() [][2]string {
 func props() []prop {
 	return []prop{
 		{
+			ID: "C12", Level: "exploration",
+			LevelText:   "decode(encode(x)) is compared with x (canonical form; nil == empty, time by instant, refs by address|path, errors by code+message) for reflection-generated values of every type in the wire registry, which is enumerated at run time through an overlaid export so that newly registered messages are picked up; message layer (WriteMessage/ReadMessage incl. nested registered and user-codec messages), envelope layer (system flag, nil/local/remote sender and receiver) and primitive layer (struct/slice/array shapes over all kinds Writer.Write and Reader.Read both support); the reader position must equal the number of bytes written. A registered type for which no value can be generated makes the run inconclusive instead of being skipped.",
+			LevelNote:   "Trusted: the canonical-form function and the generators. Domain notes (not stricter than the codec's contract): int fields that the writers narrow to int32 are generated within int32; PongMessage.Ping == nil and pointer-typed struct fields are C13's business (must be an error, not a round trip).",
+			Technique:   "differential round-trip oracle over generated inputs of every registered type (registry enumerated at run time)",
+			DesignRef:   "DESIGN.md §4 C12",
+			Assumptions: with("a user Codec (JSON) stands in for application messages"),
+			Units: []unit{
+				{Check: "codecrt", Pkg: "internal/actor", Shards: [2]int{8, 16}, Timeout: [2]time.Duration{6 * min, 40 * min}, CrashKey: "c12-crash", OnlyKinds: []string{"c12-", "harness-"}},
+			},
+		},
+		{
 			ID: "C10", Level: "exploration",
 			LevelText:   "Free-running hammer under the Go race detector on all cores: many goroutines call exactly the API documented as concurrency-safe while actors spawn from their handlers, fail under every decision and die; one child process per batch so that a process-fatal error (concurrent map access) is attributed; the deciding monitors are the race detector's reports whose stacks contain vivid code (de-duplicated by the pair of innermost vivid frames), the crash sentinel, and the tree-consistency invariant (registry == set reachable from the root through children) sampled at quiescence. The race detector additionally runs in the futures and event-stream units.",
 			LevelNote:   "Trusted: the race detector only reports races that occur in the batch; a silent run is not race-freedom. ActorContext.ActorOf is documented as not concurrency-safe and is only called from the owning handler.",
